@@ -460,6 +460,8 @@ var c01StmtAlphabet = []string{
 	"w = 1; func bump() { w = w + 10; 0 }; func t1() { [w, bump(), w] }; println(t1(), w)", "w = 1; func bump() { w = w + 10; 0 }; func g2(x, y) { [x, y] }; func t2() { g2(w, bump()) }; println(t2())",
 	"w = 1; func bump() { w = w + 10; 0 }; func t3() { {w: bump(), \"k\": w} }; println(t3())", "w = 1; func bump() { w = w + 10; 0 }; func t4() { w + bump() + w }; println(t4())",
 	"w = 3; func fr() { t = 0; for i = 1:w { t = t + i }; t }; println(fr())", "w = 2; func fr2() { for i = w:v + 2 { println(i) } }; fr2()",
+	// (known finding C01-K1: the right-hand side of `for v = f()` is evaluated twice before the first iteration)
+	"w = 0; func nx9() { w = w + 1; w < 3 }; for ok9 = nx9() { println(ok9, w) }",
 	// closures made by one factory: each has its own captured variables, also when they call each other
 	"func mk(q) { (o) => { if o == nil { q } else { o(nil) } } }; ca = mk(1); cb = mk(2); println(ca(cb), cb(ca), ca(ca))",
 	"func counter(s) { c = s; () => { c = c + 1; c } }; ct = [counter(0), counter(0)]; println([ct[0](), ct[0](), ct[1]()])",
